@@ -42,7 +42,7 @@ def check(ctx):
             v = strip_casts(written_value(f, n))
         else:
             v = None
-        ok, why = _bounded_by(v, maxd)
+        ok, why = _bounded_by(v, maxd, f)
         ctx.ob('C09.R1.depth-clamped', '%s:%s' % (short(f.name), why), ok,
                'definition of Search::_search_depth is a constant <= MAX_DEPTH or std::min(..., MAX_DEPTH) (%s)' % why,
                site=f.loc(n))
@@ -250,7 +250,7 @@ def check(ctx):
     ctx.note('not decided: wall-clock adherence to movetime/clock limits (limits are polled every 4096/40960 node visits)')
 
 
-def _bounded_by(v, maxd):
+def _bounded_by(v, maxd, f=None):
     if v is None:
         return False, 'unknown'
     cv = const_of(v)
@@ -265,6 +265,22 @@ def _bounded_by(v, maxd):
     if v.get('callee', {}).get('n') == 'std::clamp':
         ca = const_of(strip_casts(kids(v)[-1]))
         return (ca is not None and ca <= maxd), 'clamp'
+    if v['k'] == 'ConditionalOperator' and f is not None:
+        # hand-written clamp:  x > M ? M : x   and its variants
+        from rules.norm import Norm
+        nm = Norm(f, inline=False)
+        c, a, b = kids(v)
+        oks = []
+        for br, truth in ((a, True), (b, False)):
+            cb = nm.cval(br)
+            if cb is not None:
+                oks.append(cb <= maxd)
+                continue
+            at = nm.atom(c, truth)
+            oks.append(at[0] == 'le' and at[1] == nm.s(br) and at[2] <= maxd)
+        if all(oks):
+            return True, 'conditional clamp'
+        return False, 'unclamped:ConditionalOperator'
     r = v.get('ref', {})
     return False, 'unclamped:' + short(r.get('n', v['k']))
 
